@@ -69,6 +69,15 @@ def rm_oracle(case, out):
 # ------------------------------------------------------------------ read path (RD) ------
 THR_OFF = 4294967295
 
+def repo_tne():
+    """which FileCacheStore::evict is in the tree under check (see c_tne in C17_Model.v)"""
+    try:
+        t = open(os.path.join(REPO, 'fs/cache/full_file_cache/cache_store.cpp')).read()
+    except Exception:
+        return 0
+    return 1 if re.search(r'offset\s*>=\s*st\.st_size\)\s*return\s+0', t) else 0
+TNE = repo_tne()
+
 def src_bytes(n, salt=0):
     """deterministic source content function: byte i of the source"""
     return [((i * 37 + 11 + salt * 101) % 251) + 1 for i in range(n)]        # never 0x00, 0xAA=170 avoided below
@@ -100,8 +109,8 @@ def rd_case(page, unit, src, actual, filled, media, td, ops, pool=0, tp=0, refil
             return 'R/%d/%s/%s/%s' % (o[1], '+'.join(map(str, o[2])), held, fl)
         if o[0] == 'E': return 'E/%d/%d' % (o[1], o[2])
         return 'T'
-    return ('RD page=%d unit=%d pool=%d tp=%d maxr=128 thr=%d refilling=%d src=%s actual=%d filled=%s media=%s td=%d sor=%s wor=%s ops=%s'
-            % (page, unit, pool, tp, thr, refilling, hx(src), actual, ';'.join('%d-%d' % iv for iv in filled) or '-', hx(media), td,
+    return ('RD tne=%d page=%d unit=%d pool=%d tp=%d maxr=128 thr=%d refilling=%d src=%s actual=%d filled=%s media=%s td=%d sor=%s wor=%s ops=%s'
+            % (TNE, page, unit, pool, tp, thr, refilling, hx(src), actual, ';'.join('%d-%d' % iv for iv in filled) or '-', hx(media), td,
                ','.join(sor) or '-', ','.join(wor) or '-', ','.join(opstr(o) for o in ops)))
 
 def rd_consistent(d):
@@ -183,14 +192,17 @@ def pl_known_class(case):
     """class of finding C17-F1: a trim (fallocate(0, off, -1)) at an offset that is not a multiple of the page
     size (4096), followed by a later open of the file by a new store (pool re-created: phase X)"""
     kv, sizes, phases = pl_parse(case)
-    trimmed = False
+    trimmed = None
     for ph in phases:
         if ph == 'X':
-            if trimmed: return 'C17-F1'
+            if trimmed: return trimmed
             continue
         for th in ph:
             for o in th:
-                if o[0] == 't' and int(o[1:].split(':')[1]) % 4096 != 0: trimmed = True
+                if o[0] == 't':
+                    k, off = (int(x) for x in o[1:].split(':'))
+                    if off % 4096 != 0: trimmed = trimmed or 'C17-F1'
+                    elif off >= sizes[k] and not TNE: trimmed = trimmed or 'C17-F2'
     return None
 
 def pl_oracle(case, out):
@@ -215,6 +227,7 @@ def pl_oracle(case, out):
     return None
 
 PL_WITNESS_F1 = 'PL unit=4096 cap=1 fiemap=0 sizes=10000 phases=r0:0:10000,t0:5000;X;r0:6000:100,r0:0:10000'
+PL_WITNESS_F2 = 'PL unit=4096 cap=1 fiemap=0 sizes=10000 phases=r0:0:10000,t0:12288;X;r0:9990:100,r0:0:10000,r0:5:10'
 
 
 class Check(DiffCheck):
@@ -443,7 +456,7 @@ class Check(DiffCheck):
               'PL unit=4096 cap=0 fiemap=0 sizes=10000,4097 phases=r0:0:100,r0:4090:20,r0:9990:100,r1:4000:200|r0:5000:3000,r0:100:50;r0:0:10000,r1:0:5000',
               'PL unit=8192 cap=1 fiemap=1 sizes=20000,5 phases=r0:8000:300,r1:0:9,r0:19990:100|e0,y,e1,y,e0;X;r0:0:20000|r0:100:19000,e0',
               'PL unit=4096 cap=1 fiemap=0 sizes=12288 phases=r0:0:12288;t0:8192;X;r0:8000:400,r0:0:12288',
-              PL_WITNESS_F1]
+              PL_WITNESS_F1, PL_WITNESS_F2, PL_WITNESS_F2.replace('fiemap=0', 'fiemap=1')]
         n = 40 if tier == 'quick' else 600
         pool_sizes = (5, 4095, 4096, 4097, 8193, 10000, 12288, 20000)
         for _ in range(n):
@@ -463,7 +476,7 @@ class Check(DiffCheck):
                 r = rng.random()
                 if r < 0.2 and phases: phases.append('X'); continue
                 if r < 0.3:
-                    k = rng.randrange(nf); a = (rng.randrange(0, sizes[k] + 1) // 4096) * 4096
+                    k = rng.randrange(nf); a = (rng.randrange(0, sizes[k] + (8192 if TNE else 1)) // 4096) * 4096
                     op = 't%d:%d' % (k, a) if rng.random() < 0.5 else 'p%d:%d:%d' % (k, a, rng.choice((4096, 8192, 100)))
                     phases.append(','.join([rd(), op, rd()])); continue
                 ths = []
